@@ -735,6 +735,35 @@ class Expander:
                 break
         return args, kw
 
+    def _inline_nested(self, fname, args, kw):
+        """A call of a LOCAL helper that only computes a value (one return -- early returns merged --, no store into anything, no
+        closure handed out, every parameter supplied positionally) is the value: `def h(a, b): return E` ... `x = h(p, q)` is x = E[p, q].
+        Extracting an expression into such a helper, or inlining one, is the same program."""
+        ne = self.nested.get(fname)
+        if ne is None or kw or any(a.op == "star" for a in args) or getattr(self, "_inl_depth", 0) > 3:
+            return None
+        node = ne.fi.node
+        a = node.args
+        if a.vararg or a.kwarg or a.kwonlyargs or a.posonlyargs or node.decorator_list or len(a.args) != len(args):
+            return None
+        if ne.stores or not ne.returns:
+            return None
+        ret = ne.returns[0] if len(ne.returns) == 1 else ne.merged_return()
+        if ret is None or any(x.op in ("localfn", "lambda", "carried") for x in ret.walk()):
+            return None
+        # generators / loops that rebind: only straight-line helpers
+        if any(isinstance(x, (ast.For, ast.While, ast.Yield, ast.YieldFrom, ast.Try, ast.With, ast.Global, ast.Nonlocal)) for x in ast.walk(node)):
+            return None
+        m = {p_.arg: v for p_, v in zip(a.args, args)}
+
+        def sub(t):
+            if t.op == "param" and t.name in m:
+                return m[t.name]
+            if not t.args and not t.kw:
+                return t
+            return T(t.op, t.name, [sub(x) for x in t.args], {k: sub(v) for k, v in t.kw.items()}, t.node)
+        return sub(ret)
+
     def term(self, e: ast.AST, at=None) -> T:
         return self._tr(e)
 
@@ -780,6 +809,10 @@ class Expander:
                 if b is not None and b.op not in ("free", "localfn"):
                     return T("callv", None, [b] + args, kw, node=e)
                 args, kw = self._positional(f.id, args, kw)
+                inl = self._inline_nested(f.id, args, kw)
+                if inl is not None:
+                    inl = T(inl.op, inl.name, inl.args, inl.kw, e) if (inl.args or inl.kw) else inl
+                    return inl
                 return T("call", f.id, args, kw, node=e)
             return T("callv", None, [self._tr(f)] + args, kw, node=e)
         if isinstance(e, ast.BinOp):
